@@ -508,7 +508,8 @@ pub fn run_c15(run: &Run) {
     for k in 0..nfixed {
         for mode in 0..3 {
             for verb in 1..7u8 {
-                jobs.push(Job { file: fixed_from + k, mode, sort: (k + verb as usize) % 3, flags: 0b111, heu: None, extra: Extra { verb, ..Extra::default() } });
+                jobs.push(Job { file: fixed_from + k, mode, sort: (k + verb as usize) % 3, flags: 0b1100000111, heu: None, extra: Extra { verb, ..Extra::default() } });
+                jobs.push(Job { file: fixed_from + k, mode, sort: (k + verb as usize) % 3, flags: 0b0011111000, heu: Some(k % 4), extra: Extra { verb, ..Extra::default() } });
             }
         }
     }
@@ -561,7 +562,8 @@ pub fn run_c15(run: &Run) {
     }
     run.add_counts(inputs.len() as u64, 0, 0, 0);
     // malformed inputs
-    let bad = ["s(a).s(b)ac(a,b).ac(b,a).", "s(a).ac(a,neg(a,a)).", "s(a).ac(a,and(a)).", "s(a).ac(a,a).x", "s(a).ac(a,or(a,a).", "s(a.ac(a,a).", "s(a).ac(a,c(v))"];
+    // (the last three parse but name a statement that is declared nowhere: no mode may answer for them either)
+    let bad = ["s(a).s(b)ac(a,b).ac(b,a).", "s(a).ac(a,neg(a,a)).", "s(a).ac(a,and(a)).", "s(a).ac(a,a).x", "s(a).ac(a,or(a,a).", "s(a.ac(a,a).", "s(a).ac(a,c(v))", "s(a).ac(a,neg(b)).", "s(a).s(b).ac(a,or(b,zz)).ac(b,a).", "s(a).ac(a,a).ac(b,a)."];
     for (i, t) in bad.iter().enumerate() {
         for (kind, msg) in crate::c08::reject_cli_case(&cli, &tmp.0, 900000 + i as u64, t) {
             run.violation(&kind, format!("{} on {:?}", msg, t), json!({"type": "cli-bad", "text": t}));
